@@ -81,6 +81,10 @@ CacheSound == \A k \in DOMAIN cache : cache[k] = "ok"
 ProbeIsPure == Len(hist) > 0 /\ hist[Len(hist)].name = "probe" => result = Pure(hist[Len(hist)].a, mc)
 RestoreRestores == Len(hist) > 0 /\ hist[Len(hist)].name = "restore_mc" => mc = Default
 
+\* the invariants read only the last entry of the history: states that differ in older entries alone are one state for
+\* the model-checking runs (the runs that print behaviours keep the whole history)
+LastOnly == <<mc, usecache, cache, result, held, cfgobj, asked, Len(hist), IF hist = <<>> THEN Op("-", "-", "-") ELSE hist[Len(hist)]>>
+
 EndsWithProbe == Len(hist) = MaxOps /\ hist[Len(hist)].name = "probe"
 EmitCase == (EmitCases /\ EndsWithProbe) => PrintT(<<"CASE", ToJson([ops |-> hist])>>)
 =============================================================================
